@@ -232,6 +232,24 @@ Definition insert (st : conn) (k : N) (r : srec) : conn :=
   with_ids (put st k r) (sset (s_id r) k (c_ids st)).
 Definition is_linked (st : conn) (k : N) : bool := existsb (fun p => snd p =? k) (c_ids st).
 
+(* Prioritize::clear_queue (repair cc6ac6c): a PUSH_PROMISE dropped from a queue will never reach the peer; the promised
+   stream - found by its id - is failed on the spot: is_pending_push cleared, its own queue emptied,
+   set_reset(CANCEL, Library) whatever its state was; nothing goes on the wire for it *)
+Definition CANCEL_ : N := 8.
+Definition failed_promise (c : srec) : srec :=
+  mkS (s_id c) (Closed (CError (EReset (s_id c) CANCEL_ Library))) (s_popen c) false (s_rexp c) [] None.
+Definition fail_promised_one (st : conn) (f : qframe) : conn :=
+  match f with
+  | QPush p => match iget st p with Some (ck, c) => put st ck (failed_promise c) | None => st end
+  | _ => st
+  end.
+Definition fail_promised (st : conn) (q : list qframe) : conn := fold_left fail_promised_one q st.
+Fixpoint has_cleared (o : list out) : bool :=
+  match o with [] => false | OCleared _ :: _ => true | _ :: o' => has_cleared o' end.
+(* the queue `q` (that of the record before the section) has been discarded if the outputs say so *)
+Definition drop_promises (st : conn) (o : list out) (q : list qframe) : conn :=
+  if has_cleared o then fail_promised st q else st.
+
 (* Config: role, local_push_enabled, local_next_stream_id (1 for a client, 2 for a server) *)
 Definition init (r : role) (push_local : bool) : conn :=
   mkC r push_local true [] [] (Some (if is_server r then 2 else 1)) (Some (if is_server r then 1 else 2))
@@ -489,7 +507,7 @@ Definition recv_trailers_core (sid : N) (o : hobs) (r : srec) : srec * list out 
 Definition recv_headers_on (st : conn) (sid : N) (eos info : bool) (o : hobs) (k : N) (r : srec) (ins : bool)
   : outcome :=
   let o0 := if ins then [OOpened sid] else [] in
-  let wr := fun r' => put st k r' in
+  let wr := fun r' o' => drop_promises (put st k r') o' (s_q r) in
   if s_popen r then res1 st o0 (RErr conn_proto)
   else if is_local_error (s_state r) then res1 st o0 RIgnored
   else if is_recv_headers (s_state r) then
@@ -497,7 +515,7 @@ Definition recv_headers_on (st : conn) (sid : N) (eos info : bool) (o : hobs) (k
     | None => Panic 1
     | Some (r1, o1, res) =>
       let '(r2, o2, res2) := reset_on_recv_stream_err sid res (h_quota o) (h_can_reset o) r1 in
-      res1 (wr r2) (o0 ++ o1 ++ o2) res2
+      res1 (wr r2 o2) (o0 ++ o1 ++ o2) res2
     end
   else if negb eos then
     (* trailers without END_STREAM: returned from inside the closure, the reset is left to the caller *)
@@ -505,7 +523,7 @@ Definition recv_headers_on (st : conn) (sid : N) (eos info : bool) (o : hobs) (k
   else
     let '(r1, o1, res) := recv_trailers_core sid o r in
     let '(r2, o2, res2) := reset_on_recv_stream_err sid res (h_quota o) (h_can_reset o) r1 in
-    res1 (wr r2) (o0 ++ o1 ++ o2) res2.
+    res1 (wr r2 o2) (o0 ++ o1 ++ o2) res2.
 
 Definition step_recv_headers (st : conn) (sid : N) (eos info : bool) (o : hobs) (nk : N) : outcome :=
   if sid =? 0 then Stuck 1                                 (* refused by frame::Headers::load *)
@@ -584,7 +602,7 @@ Definition step_recv_data (st : conn) (sid : N) (eos : bool) (o : dobs) : outcom
                    | x => x
                    end in
       let '(r2, o2, res2) := reset_on_recv_stream_err sid res1' (d_quota o) (d_can_reset o) r1 in
-      res1 (put st k r2) (o1 ++ o2) res2
+      res1 (drop_promises (put st k r2) o2 (s_q r)) (o1 ++ o2) res2
     end.
 
 (* ---------------------------------------------------------------------------------------------
@@ -594,7 +612,7 @@ Definition too_many_resets : perror := EGoAway TOO_MANY_RESETS ENHANCE_YOUR_CALM
 
 Definition step_recv_reset (st : conn) (sid code : N) (o : robs) : outcome :=
   if sid =? 0 then res1 st [] (RErr conn_proto)
-  else if c_recv_max st <? sid then res1 st [] RIgnored
+  else if (c_recv_max st <? sid) && negb (is_local_init (c_role st) sid) then res1 st [] RIgnored   (* repair a398950 *)
   else
     match iget st sid with
     | None => if not_idle st sid then res1 st [] RIgnored else res1 st [] (RErr conn_proto)
@@ -604,7 +622,7 @@ Definition step_recv_reset (st : conn) (sid code : N) (o : robs) : outcome :=
       else
         let r1 := set_state r (fst (recv_reset sid code (r_queued o) (s_state r))) in
         let '(r2, o2) := clear_queue sid r1 in                   (* send.handle_error *)
-        res1 (put st k r2) (ORx sid (RxReset code) :: o2) ROk
+        res1 (drop_promises (put st k r2) o2 (s_q r)) (ORx sid (RxReset code) :: o2) ROk
     end.
 
 Definition step_recv_window_update (st : conn) (sid : N) (o : wobs) : outcome :=
@@ -620,7 +638,7 @@ Definition step_recv_window_update (st : conn) (sid : N) (o : wobs) : outcome :=
         let '(r1, o1) := send_reset_core sid FLOW_CONTROL_ERROR Library r in
         let '(r2, o2, res2) := reset_on_recv_stream_err sid (RErr (lib_reset sid FLOW_CONTROL_ERROR))
                                                         (w_quota o) (w_can_reset o) r1 in
-        res1 (put st k r2) (o1 ++ o2) res2
+        res1 (drop_promises (put st k r2) (o1 ++ o2) (s_q r)) (o1 ++ o2) res2
       else res1 st [] ROk
     end.
 
@@ -633,8 +651,14 @@ Definition step_recv_push_promise (st : conn) (sid promised : N) (o : pobs) (nk 
       if c_recv_max st <? sid then res1 st [] RIgnored
       else if is_local_error (s_state r) then
         (* the parent was reset locally: the promised stream is refused (repair 631577b) *)
+        (* repair 60d7633: the promised identifier goes through Recv::open like any other *)
         if negb (c_push_local st) then res1 st [] (RErr conn_proto)
-        else res1 st [ORxRefused promised] (RErr (lib_reset promised CANCEL))
+        else match recv_open_id st promised true (p_can_open o) with
+             | OpStuck => Stuck 6
+             | OpErr e => res1 st [] (RErr e)
+             | OpRefused st1 => res1 st1 [ORxRefused promised] RIgnored
+             | OpOpened st1 => res1 st1 [ORxRefused promised] (RErr (lib_reset promised CANCEL))
+             end
       else
         match ensure_recv_open (s_state r) with
         | RProtoErr e => res1 st [] (RErr e)
@@ -683,8 +707,13 @@ Definition step_recv_go_away (st : conn) (last code : N) (debug : list N) : outc
     let l := map_linked st (fun _ r => if (last <? s_id r) && is_local_init ro (s_id r) then fail_rec e r else r) in
     res1 (with_conn_error (with_slab (with_send_max st last) l) (Some e)) [] ROk.
 
+(* the queues store.for_each clears, one after the other *)
+Definition linked_queues (st : conn) : list qframe :=
+  flat_map (fun kr => if is_linked st (fst kr) then s_q (snd kr) else []) (c_slab st).
+
 Definition step_handle_error (st : conn) (e : perror) : outcome :=
-  res1 (with_conn_error (with_slab st (map_linked st (fun _ r => fail_rec e r))) (Some e)) [] ROk.
+  res1 (fail_promised (with_conn_error (with_slab st (map_linked st (fun _ r => fail_rec e r))) (Some e))
+                      (linked_queues st)) [] ROk.
 
 Definition conn_eof_error : perror := EIo IO_BROKEN_PIPE (Some CONN_EOF_MSG).
 
@@ -710,7 +739,8 @@ Definition step_recv_eof (st : conn) (relabel : list N) : outcome :=
              | None => with_conn_error st (Some conn_eof_error)
              | Some _ => st
              end in
-  res1 (with_slab st1 (map (unqueue_rec relabel) (map_linked st1 (eof_rec relabel)))) [] ROk.
+  res1 (fail_promised (with_slab st1 (map (unqueue_rec relabel) (map_linked st1 (eof_rec relabel)))) (linked_queues st1))
+       [] ROk.
 
 (* ---------------------------------------------------------------------------------------------
    the connection's reactions *)
@@ -723,7 +753,7 @@ Definition step_poll2_reset (st : conn) (sid code : N) (quota can : bool) (nk : 
     | Some (k, r) =>
       match actions_send_reset sid code Library quota can r with
       | None => res1 st [] (RErr too_many_internal_resets)
-      | Some (r1, o1) => res1 (put st k r1) o1 ROk
+      | Some (r1, o1) => res1 (drop_promises (put st k r1) o1 (s_q r)) o1 ROk
       end
     | None =>
       let st1 := if is_local_init (c_role st) sid
@@ -879,7 +909,7 @@ Definition step_send_reset (st : conn) (k code : N) (can : bool) : outcome :=
   | None => Stuck 18
   | Some r =>
     match actions_send_reset (s_id r) code User true can r with
-    | Some (r1, o1) => res1 (put st k r1) o1 ROk
+    | Some (r1, o1) => res1 (drop_promises (put st k r1) o1 (s_q r)) o1 ROk
     | None => Panic 8                                      (* unreachable!("Initiator::User should not error sending reset") *)
     end
   end.
@@ -937,7 +967,7 @@ Definition step_pop (st : conn) (k : N) (o : popobs) : outcome :=
         | Some reason =>
           if negb (reason =? NO_ERROR) then
             (* discard the buffered DATA, the None arm emits the RST_STREAM on a later visit *)
-            let '(r1, o1) := clear_queue sid r in Ok (put st k r1) o1
+            let '(r1, o1) := clear_queue sid r in Ok (drop_promises (put st k r1) o1 (s_q r)) o1
           else send
         | None => send
         end
